@@ -294,6 +294,105 @@ Section WfCache.
     | [] => s
     | o :: r => state_after (fst (step s o)) r
     end.
+
+  (* ---- object identity: which Python object is the `inputs` of a returned / cached Workflow ----
+     `lazy_spec = copy(task)` allocates a new task object on the miss path (it is what the cached
+     Workflow keeps as `inputs`), `deepcopy` allocates on the superset path, an exact hit returns the
+     cached object itself.  new / copy.copy / attrs.evolve allocate the user's objects; setattr writes
+     to one of those.  Identities are allocation numbers. *)
+  Record ids := { inext : nat; iuser : list nat; icache : list (HT * list fname * HD * nat) }.
+  Definition ids0 : ids := {| inext := 0; iuser := []; icache := [] |}.
+
+  Fixpoint ifind (ic : list (HT * list fname * HD * nat)) (th : HT) (keys : list fname) (vh : HD) : option nat :=
+    match ic with
+    | [] => None
+    | (th', ks, vh', n) :: r =>
+        if ht_eqb th th' && keys_eqb keys ks && hd_eqb vh vh' then Some n else ifind r th keys vh
+    end.
+
+  Definition cache_ids (i : ids) : list nat := map snd (icache i).
+
+  (* identity effect of Workflow.construct, given the path it took *)
+  Definition iconstruct (i : ids) (t : T) (attrs : list (fname * attr V)) (lazy : list fname) (dc : bool)
+             (h : hit) : ids * nat :=
+    let nlv := non_lazy_vals attrs lazy in
+    let keys := map fst nlv in
+    match h with
+    | Exact => (i, match ifind (icache i) (hash_type t) keys (hash_dict nlv) with
+                   | Some n => n
+                   | None => inext i
+                   end)
+    | Superset => ({| inext := S (inext i); iuser := iuser i; icache := icache i |}, inext i)
+    | Miss => ({| inext := S (inext i); iuser := iuser i;
+                  icache := if dc then icache i
+                            else icache i ++ [(hash_type t, keys, hash_dict nlv, inext i)] |}, inext i)
+    end.
+
+  (* one observation per operation: identity of the returned workflow's inputs (construct operations),
+     identity written by a setattr, and the user's objects at that moment *)
+  Record idobs := { id_ret : option nat; id_written : option nat; id_user : list nat; id_cached : list nat }.
+
+  Definition alloc_user (i : ids) : ids :=
+    {| inext := S (inext i); iuser := iuser i ++ [inext i]; icache := icache i |}.
+
+  Definition istep (s : st) (i : ids) (o : op) : ids * idobs :=
+    let quiet (j : ids) := (j, {| id_ret := None; id_written := None; id_user := iuser j; id_cached := cache_ids j |}) in
+    match o with
+    | ONew _ _ => quiet (alloc_user i)
+    | OSet k f _ =>
+        match nth_error (objs s) k with
+        | Some ob =>
+            if mem f (map fst (oattrs ob))
+            then (i, {| id_ret := None; id_written := nth_error (iuser i) k; id_user := iuser i; id_cached := cache_ids i |})
+            else quiet i
+        | None => quiet i
+        end
+    | OCopy k | OEvolve k _ =>
+        match nth_error (objs s) k with Some _ => quiet (alloc_user i) | None => quiet i end
+    | OConstruct k =>
+        match nth_error (objs s) k with
+        | Some ob =>
+            let '(_, _, h) := construct (wcache s) (otype ob) (oattrs ob) [] false in
+            let '(j, n) := iconstruct i (otype ob) (oattrs ob) [] false h in
+            (j, {| id_ret := Some n; id_written := None; id_user := iuser j; id_cached := cache_ids j |})
+        | None => quiet i
+        end
+    | OWConstruct k lazy dc =>
+        match nth_error (objs s) k with
+        | Some ob =>
+            let '(_, _, h) := construct (wcache s) (otype ob) (oattrs ob) lazy dc in
+            let '(j, n) := iconstruct i (otype ob) (oattrs ob) lazy dc h in
+            (j, {| id_ret := Some n; id_written := None; id_user := iuser j; id_cached := cache_ids j |})
+        | None => quiet i
+        end
+    | ORun k new_root =>
+        match nth_error (objs s) k with
+        | Some ob =>
+            match all_vals (oattrs ob) with
+            | None => quiet i
+            | Some vals =>
+                match (if new_root then None else find_h hc_eqb (store s) (checksum (otype ob) vals)) with
+                | Some _ => quiet i
+                | None =>
+                    let '(_, _, h) := construct (wcache s) (otype ob) (oattrs ob) [] false in
+                    quiet (fst (iconstruct i (otype ob) (oattrs ob) [] false h))
+                end
+            end
+        | None => quiet i
+        end
+    | OClear None => quiet {| inext := inext i; iuser := iuser i; icache := [] |}
+    | OClear (Some t) =>
+        quiet {| inext := inext i; iuser := iuser i;
+                 icache := filter (fun e => negb (ht_eqb (hash_type t) (fst (fst (fst e))))) (icache i) |}
+    end.
+
+  Fixpoint irun (s : st) (i : ids) (ops : list op) : list idobs :=
+    match ops with
+    | [] => []
+    | o :: r => let '(j, ob) := istep s i o in ob :: irun (fst (step s o)) j r
+    end.
+
+  Definition id_history (ops : list op) : list idobs := irun st0 ids0 ops.
 End WfCache.
 
 Arguments wname {V G} w.
@@ -509,3 +608,9 @@ Definition c_history (ops : list cop) : list cobs :=
           (eqb_of_dec wfdef_dec) (eqb_of_dec dict_dec) (eqb_of_dec ck_dec)
           (fun d => d) (fun l => l) (fun d l => (d, l))
           wd_name wd_names wd_default ctor_of subst_graph eval_graph ops.
+
+Definition c_id_history (ops : list cop) : list idobs :=
+  id_history val wfdef graph (option val) wfdef (list (fname * val)) (wfdef * list (fname * val))
+             (eqb_of_dec wfdef_dec) (eqb_of_dec dict_dec) (eqb_of_dec ck_dec)
+             (fun d => d) (fun l => l) (fun d l => (d, l))
+             wd_name wd_names wd_default ctor_of subst_graph eval_graph ops.
